@@ -119,9 +119,37 @@ def _inproc_chunk(args):
             fails.append({"kind": "re-entrant", "text": progs[i] + "\n%%% inner\n" + progs[j], "what": "re-entrant translation differs"})
     return cnt, fails
 
+STATE_PROBES = [
+    "#program always. &tel { a | ~ a }.",
+    "#program always. &tel { c | ~ c }. &tel { a | ~ c }.",
+    "#program initial. &tel { > a | ~ >? b }. #program always. { b }.",
+    "#program always. { a }. :- not &tel { > a | < a }.",
+    "#program always. { a; b }. :- &del { * a .>? b }.",
+    "#program always. { a }. b' :- a. :- b, a''.",
+    "#program initial. { a }. &tel { >* (a | ~ b) } :- a.",
+]
+
+def _probe_chunk(args):
+    """answer sets of P, then another program, then P again — in one process, for every ordered pair of the probes"""
+    (idx,) = args
+    fails = []
+    cnt = 0
+    p = STATE_PROBES[idx]
+    m1 = oracles.impl_models(p, 2, dedup=True)
+    for q in STATE_PROBES:
+        cnt += 1
+        oracles.impl_models(q, 2)
+        m2 = oracles.impl_models(p, 2, dedup=True)
+        if m1 != m2:
+            fails.append({"kind": "models-after-other-run", "text": p + "\n%%% solved again after\n" + q,
+                          "what": "the answer sets of a program differ after another program was solved in the same process",
+                          "first": str(m1)[:300], "again": str(m2)[:300]})
+            break
+    return cnt, fails
+
 def search(ctx, deep):
     r = random.Random(ctx.seed * 137 + 2)
-    n = (24 if ctx.tier == "quick" else 100) * (3 if deep else 1)
+    n = (24 if ctx.tier == "quick" else 300) * (3 if deep else 1)
     progs = [future_heavy(r) for _ in range(n)]
     cases = [([p], 2 if i % 3 == 0 else None) for i, p in enumerate(progs)]
     seeds = [0, 1, 2, 3, 12345] if ctx.tier == "quick" else list(range(12)) + [12345, 987654321]
@@ -138,6 +166,9 @@ def search(ctx, deep):
         if fails:
             break
     cnt = 0
+    for c, f in par.pmap(_probe_chunk, [(i,) for i in range(len(STATE_PROBES))], ctx.jobs):
+        cnt += c
+        fails += f
     for c, f in par.pmap(_inproc_chunk, [(ctx.seed * 139 + j, 6 if ctx.tier == "quick" else 30) for j in range(ctx.jobs)], ctx.jobs):
         cnt += c
         fails += f
